@@ -246,6 +246,7 @@ func (fr *Frame) exec(in ssa.Instruction, st *State, g string) {
 		fr.panicInstr(x, st, g)
 	case *ssa.Range:
 		fr.vals[x] = SV{t: fr.val(x.X).t, typ: x.X.Type()}
+		fr.rangeInit(x, st) // map range: the ghost visited set starts empty (ext_maprange.go)
 	case *ssa.Return:
 		fr.ret(x, st, g)
 	case *ssa.RunDefers:
@@ -652,6 +653,7 @@ func (fr *Frame) next(x *ssa.Next, st *State, g string) {
 	fc.assume(g, implies(ok, and(not(eq(rng.t, nilPtr)), has, tc.wf(k, mt.Key(), fc.watermark(st)), tc.wf(val, mt.Elem(), fc.watermark(st)))))
 	// an empty map yields no element
 	fc.assume(g, implies(eq(app("select", fc.comp(st, "ML", "(Array Ptr Int)"), rng.t), "0"), not(ok)))
+	fr.nextVisited(x, st, g, rng.t, k, ok, mt) // ghost visited set of the range statement (ext_maprange.go)
 	fr.vals[x] = SV{typ: x.Type(), tuple: []SV{{t: ok, typ: boolT}, {t: k, typ: mt.Key()}, {t: val, typ: mt.Elem()}}}
 }
 
@@ -1203,6 +1205,11 @@ func (fr *Frame) checkInvariants(li *loopInfo, e inEdge, kind string) {
 		fc.oblige(fr, kind, fmt.Sprintf("L%d:auto", li.ordinal), e.guard, a, li.header.Instrs[0].Pos(), "automatic range bound", fr.props())
 	}
 	env := fr.specEnv(st, fr.entry)
+	env.loopEntry = li.entry // inv-keep: the state in which the loop was entered
+	if kind == "inv-init" {
+		env.loopEntry = st // on an entry edge the loop-entry state is the state of that edge
+	}
+	fr.bindVisited(env, li)
 	for i, cl := range fr.invariantsOf(li) {
 		t, err := env.evalBool(cl.E)
 		if err != nil {
@@ -1230,6 +1237,8 @@ func (fr *Frame) assumeInvariants(li *loopInfo, st *State, g string) {
 		fc.assume(g, a)
 	}
 	env := fr.specEnv(st, fr.entry)
+	env.loopEntry = li.entry
+	fr.bindVisited(env, li)
 	for _, cl := range fr.invariantsOf(li) {
 		t, err := env.evalBool(cl.E)
 		if err != nil {
